@@ -220,7 +220,7 @@ fn check_cfg(l: &mut Local<'_>, c: &Cfg, menu: &[(&'static str, ModSpec)]) {
 
 fn main() {
     let ctx = Ctx::from_env("C17");
-    ctx.rule("universe 'builder': mode x convert flag x mods {NM,HR,EZ,DT,HT,HRDT,EZHT,lazer DA} x clock rate {unset,0.01,0.5,0.75,1,1.5,2,100,1.234,0.875,33.333} x (ar with_mods, od with_mods) x swept attribute {ar,od,cs,hp}, each sweeping a 0.5 grid over [-20,20]; oracle = hit_windows()==build().hit_windows everywhere; on [0,10]: with_mods=true round trip (1e-9), windows non-increasing in OD/AR, windows x clock rate constant (mania excluded: floor/ceil formula), HR >= NM >= EZ. universe 'calculators': grammar maps x settings: OsuDifficultyAttributes.{ar, od(), *_hit_window, hp}, taiko windows and catch AR equal the builder's output for the same (converted) map and Difficulty; non-trivial = every builder case / stars > 0");
+    ctx.rule("universe 'builder': mode x convert flag x mods {NM,HR,EZ,DT,HT,HRDT,EZHT,lazer DA} x clock rate {unset,0.01,0.5,0.75,1,1.5,2,100,1.234,0.875,33.333} x (ar with_mods, od with_mods) x swept attribute {ar,od,cs,hp}, each sweeping a 0.5 grid over [-20,20]; oracle = hit_windows()==build().hit_windows everywhere; on [0,10]: with_mods=true round trip (1e-9), windows non-increasing in OD/AR, windows x clock rate constant (mania excluded: floor/ceil formula), HR >= NM >= EZ. universe 'calculators': grammar maps x settings (overrides up to +-20, beyond the point where hit windows turn negative): OsuDifficultyAttributes.{ar, od(), *_hit_window, hp}, taiko windows and catch AR equal the builder's output for the same (converted) map and Difficulty; non-trivial = every builder case / stars > 0");
 
     let menu = mods_menu();
     let radices: [u64; 7] = [4, 2, menu.len() as u64, RATES.len() as u64, 2, 2, 4];
@@ -247,7 +247,7 @@ fn main() {
     let mut setts: Vec<Setting> = Vec::new();
     for (_, m) in &menu {
         for r in [None, Some(0.75), Some(1.3), Some(1.234)] {
-            for (ar, od) in [(None, None), (Some((9.3, true)), Some((9.3, false))), (Some((9.3, false)), Some((8.5, true))), (Some((-3.0, false)), Some((11.0, true)))] {
+            for (ar, od) in [(None, None), (Some((9.3, true)), Some((9.3, false))), (Some((9.3, false)), Some((8.5, true))), (Some((-3.0, false)), Some((11.0, true))), (Some((-20.0, true)), Some((20.0, true))), (Some((20.0, false)), Some((15.0, false)))] {
                 for lazer in [None, Some(false)] {
                     setts.push(Setting { mods: m.clone(), rate: r, ar, od, cs: None, hp: if ar.is_some() { Some((6.5, od.is_some_and(|o| o.1))) } else { None }, hr_offsets: None, lazer, passed: None });
                 }
@@ -263,7 +263,7 @@ fn main() {
             }
             ctx.universe(&u.name, u.total, |idx, l| {
                 let (spec, map) = u.decode(idx);
-                u.sample(l, idx, &spec, "settings: 8 mods x 4 rates x 4 override patterns");
+                u.sample(l, idx, &spec, "settings: 8 mods x 4 rates x 6 override patterns (AR / OD up to +-20)");
                 let mode = gen::game_mode(u.cfg.dst);
                 for s in &setts {
                     let d: Difficulty = s.difficulty(mode);
